@@ -70,4 +70,67 @@ theorem T0x0800_roundtrip (fuel : Nat) (t q : model_T0x0800) (j : jt808_JTMessag
   simp [make, makeCap, putU16At, putU32At, setIdx, Go.be16, sliceTo, sliceFrom, slice, idx, u16_pair, u16_cons2, u32_quad, be32_length, be32_take4, be32_lit,
     show ∀ (v : UInt32) (a b c d : Byte), Go.be32 v ++ [a, b, c, d] = [(Go.be32 v)[0]!, (Go.be32 v)[1]!, (Go.be32 v)[2]!, (Go.be32 v)[3]!, a, b, c, d] from fun v a b c d => by simp [Go.be32]]
 
+theorem drop_cons_append {α : Type} (a x : α) : ∀ (l r : List α), (a :: (l ++ x :: r)).drop (2 + l.length) = r
+  | [], r => rfl
+  | b :: l, r => by
+    have := drop_cons_append a x l r
+    simp only [List.length_cons, List.cons_append]
+    rw [show 2 + (l.length + 1) = (2 + l.length) + 1 by omega, List.drop_succ_cons]
+    rw [show 2 + l.length = (1 + l.length) + 1 by omega, List.drop_succ_cons] at this
+    rw [show 2 + l.length = (1 + l.length) + 1 by omega, List.drop_succ_cons]
+    exact this
+
+theorem get_cons_append {α : Type} (a x : α) : ∀ (l r : List α), (a :: (l ++ x :: r))[1 + l.length]? = some x
+  | [], r => rfl
+  | b :: l, r => by
+    have := get_cons_append b x l r
+    simp only [List.length_cons, List.cons_append]
+    rw [show 1 + (l.length + 1) = (1 + l.length) + 1 by omega, List.getElem?_cons_succ]
+    exact this
+
+theorem T0x1211_Encode_eq (fuel : Nat) (t : model_T0x1211) :
+    model_T0x1211_Encode fuel t = X.ok ([t.FileNameLen] ++ t.FileName ++ [t.FileType] ++ Go.be32 t.FileSize) := by
+  simp [model_T0x1211_Encode, makeCap, setIdx]
+
+/-- file information 0x1211 / 0x1212 (name length, name, type, size): `Parse(Encode(v)) = v` on the translated code whenever
+the length byte is the length of the name -/
+theorem T0x1211_roundtrip (fuel : Nat) (t q : model_T0x1211) (j : jt808_JTMessage) (hl : t.FileNameLen.toNat = t.FileName.length) :
+    ∃ body, model_T0x1211_Encode fuel t = X.ok body ∧
+      ∃ r, model_T0x1211_Parse fuel q { j with Body := body } = X.ok (r, none) ∧ r.FileNameLen = t.FileNameLen ∧ r.FileName = t.FileName ∧ r.FileType = t.FileType ∧ r.FileSize = t.FileSize := by
+  refine ⟨_, T0x1211_Encode_eq fuel t, ?_⟩
+  have hblen : ([t.FileNameLen] ++ t.FileName ++ [t.FileType] ++ Go.be32 t.FileSize).length = 6 + t.FileName.length := by
+    simp [be32_length]; omega
+  have c1 : decide (len ([t.FileNameLen] ++ t.FileName ++ [t.FileType] ++ Go.be32 t.FileSize) < (6 : Int)) = false := by
+    rw [len_eq, hblen]; simp; omega
+  simp only [model_T0x1211_Parse, c1, Bool.false_eq_true, if_false, model_T0x1211_Parse_j2]
+  have hi0 : idx ([t.FileNameLen] ++ t.FileName ++ [t.FileType] ++ Go.be32 t.FileSize) (0 : Int) = X.ok t.FileNameLen := by
+    simp [idx]
+  rw [hi0]
+  simp only [X.bind_ok]
+  have c2 : (len ([t.FileNameLen] ++ t.FileName ++ [t.FileType] ++ Go.be32 t.FileSize) != (6 : Int) + Int.ofNat t.FileNameLen.toNat) = false := by
+    rw [len_eq, hblen, hl]; simp
+  rw [hl] at c2
+  simp only [hl, c2, Bool.false_eq_true, if_false, model_T0x1211_Parse_j1]
+  have n := t.FileName.length
+  have s1 : slice ([t.FileNameLen] ++ t.FileName ++ [t.FileType] ++ Go.be32 t.FileSize) (1 : Int) ((1 : Int) + Int.ofNat t.FileName.length) = X.ok t.FileName := by
+    rw [slice_int _ _ _ (by rw [hblen]; simp; omega)]
+    have e : ((1 : Int) + Int.ofNat t.FileName.length).toNat - (1 : Int).toNat = t.FileName.length := by simp; omega
+    rw [e]; simp
+  have s2 : idx ([t.FileNameLen] ++ t.FileName ++ [t.FileType] ++ Go.be32 t.FileSize) ((1 : Int) + Int.ofNat t.FileName.length) = X.ok t.FileType := by
+    rw [show ((1 : Int) + Int.ofNat t.FileName.length) = ((1 + t.FileName.length : Nat) : Int) by push_cast; rfl]
+    have hb : [t.FileNameLen] ++ t.FileName ++ [t.FileType] ++ Go.be32 t.FileSize = t.FileNameLen :: (t.FileName ++ t.FileType :: Go.be32 t.FileSize) := by simp
+    rw [hb]
+    unfold idx
+    have h0 : (0 : Int) ≤ ((1 + t.FileName.length : Nat) : Int) := by omega
+    have e : (((1 + t.FileName.length : Nat) : Int)).toNat = 1 + t.FileName.length := by omega
+    rw [if_pos h0, e, get_cons_append]
+  have s3 : sliceFrom ([t.FileNameLen] ++ t.FileName ++ [t.FileType] ++ Go.be32 t.FileSize) ((2 : Int) + Int.ofNat t.FileName.length) = X.ok (Go.be32 t.FileSize) := by
+    rw [show ((2 : Int) + Int.ofNat t.FileName.length) = ((2 + t.FileName.length : Nat) : Int) by push_cast; rfl]
+    have hb : [t.FileNameLen] ++ t.FileName ++ [t.FileType] ++ Go.be32 t.FileSize = t.FileNameLen :: (t.FileName ++ t.FileType :: Go.be32 t.FileSize) := by simp
+    rw [sliceFrom_ok _ _ (by rw [hblen]; omega), hb, drop_cons_append]
+  rw [s1]; simp only [X.bind_ok]
+  rw [s2]; simp only [X.bind_ok]
+  rw [s3]; simp only [X.bind_ok, u32_quad]
+  exact ⟨_, rfl, rfl, rfl, rfl, rfl⟩
+
 end JT.Gen.GoModel
